@@ -51,8 +51,16 @@ def execute(entry, cfg, origin, seed, idxkind):
             # parameter updating off: Detrender.update's default would refit its forecaster, which needs a
             # stored horizon (the missing-horizon-on-refit case is outside C13, see DESIGN 7)
             # (the deseasonalizers have nothing to refit: both settings are exercised)
-            est.update(ser(hi + 1, hi + b, sp, entry, seed, origin, idxkind),
-                       update_params=bool(seed % 3 == 1 and cfg["kind"] != "other"))
+            up = bool(seed % 3 == 1 and cfg["kind"] != "other")
+            shape = (seed // 2) % 4 if not up else 0
+            if shape == 2 and hi - b - 1 >= 2:
+                # a batch of observations seen before (revised readings) that ends before the last point seen so far
+                est.update(ser(hi - b - 1, hi - 2, sp, entry, seed, origin, idxkind), update_params=False)
+                continue
+            if shape == 3:
+                # a later stretch that leaves a gap of two time points after the data seen so far
+                hi += 2
+            est.update(ser(hi + 1, hi + b, sp, entry, seed, origin, idxkind), update_params=up)
             hi += b
     z = ser(cfg["lo"], cfg["lo"] + cfg["len"] - 1, sp, entry, seed, origin, idxkind)
     z0 = z.copy()
@@ -96,13 +104,20 @@ def observe(entry, cfg, seed):
                        for i in range(len(B))] if A.shape == B.shape else [False] * len(B)
             o["rt_index"] = bool(list(zb.index) == list(z.index)) and len(zb) == len(z)
         train = ser(0, cfg["n"] - 1, cfg["sp"], entry, seed, origin, seed % 2)
-        a = entry["factory"]().fit_transform(train.copy())
+        first = entry["factory"]()
+        if seed % 2 == 0:      # the object has been through fit_transform before, on another stretch
+            first.fit_transform(ser(1, cfg["n"] + 2, cfg["sp"], entry, seed + 9, origin, seed % 2))
+        a = first.fit_transform(train.copy())
         b = entry["factory"]().fit(train.copy()).transform(train.copy())
         o["fteq"] = bool(list(a.index) == list(b.index) and close(a.values, b.values))
         r2 = execute(entry, cfg, origin + 7, seed, seed % 2)
         sh = 7 if entry["same_index"] else 0     # outputs not indexed by time (lags) keep their index
         o["shift"] = bool([int(i) - sh for i in r2["out"].index] == [int(i) for i in r["out"].index]
                           and close(r2["out"].values, r["out"].values))
+        o["noupd"] = True
+        if cfg["ups"] and not (seed % 3 == 1 and cfg["kind"] != "other"):
+            r0 = execute(entry, dict(cfg, ups=[]), origin, seed, seed % 2)
+            o["noupd"] = bool(list(r0["out"].index) == list(r["out"].index) and close(r0["out"].values, r["out"].values))
         return o
     except Exception as e:
         import traceback
